@@ -131,7 +131,7 @@ func (e *Envelope) ValidateWithContext(ctx context.Context) error {
 		validation.Field(&e.Schema, validation.Required),
 		validation.Field(&e.Head, validation.Required),
 		validation.Field(&e.Document, validation.Required), // this will also check payload
-		validation.Field(&e.Signatures),
+		validation.Field(&e.Signatures, validation.Each(validation.Required)),
 	)
 	if err != nil {
 		return wrapError(err)
